@@ -38,9 +38,10 @@ GENERATORS = ['sets_leave_one_out_pattern', 'sets_leave_one_out_rdm', 'sets_k_fo
               'sets_k_fold_pattern', 'sets_of_k_rdm', 'sets_of_k_pattern', 'sets_random']
 REQUIRED = ['check:' + g for g in GENERATORS] + ['check:theta_ignores_test_data',
                                                  'check:score_ignores_train_only_data', 'check:fitter_sees_only_training',
-                                                 'folds_checked', 'shuffles_observed', 'inputs_with_bootstrap_copies',
+                                                 'folds_checked', 'shuffles_observed', 'inputs_with_bootstrap_copies', 'check:bootstrap_crossval_folds',
                                                  'inputs_with_bootstrap_copies_grouped_by_index']
 REACH = GENERATORS + ['crossval', 'RDMs.subset', 'RDMs.subsample', 'RDMs.subset_pattern', 'fit_regress']
+INCONCLUSIVE_IF = ['bootstrap_crossval_untraceable']
 FAIL_KEYS = ['generator', 'what', 'k', 'fitter', 'dimension', 'scheme']
 TIME_BUDGET = {'quick': 80, 'thorough': 800}
 
@@ -482,7 +483,54 @@ def run_noninterference(ctx):
             return
 
 
+def run_bootstrap_crossval_folds(ctx):
+    """the folds that bootstrap-wrapped cross-validation cuts inside each bootstrap sample respect the grouping the
+    caller asked for: observed at the module boundary (evaluate.sets_k_fold is looked up at call time)"""
+    from rsatoolbox.inference import evaluate as E
+    from rsatoolbox.inference import bootstrap_crossval
+    from vlib.monitor import Trace, patched
+    rng = ctx.rng
+    n_grp = int(rng.integers(4, 7))
+    per = int(rng.integers(2, 4))
+    n_rdm, n_cond = n_grp * per, int(rng.integers(8, 11))
+    order = rng.permutation(n_rdm)
+    grp = [f'subj{int(i) // per}' for i in order]          # several RDMs (sessions) per subject, interleaved
+    v = gen.rdm_vectors(rng, n_rdm, n_cond, 'pos')
+    rd = RDMs(v.copy(), rdm_descriptors={'uid': list(range(n_rdm)), 'grp': grp},
+              pattern_descriptors={'puid': list(range(n_cond))})
+    models = [ModelFixed('f', RDMs(gen.rdm_vectors(rng, 1, n_cond, 'pos'), pattern_descriptors={'puid': list(range(n_cond))}))]
+    k_rdm = int(rng.integers(2, 4))
+    boot_type = gen.pick(rng, ['rdm', 'both'])
+    sig = dict(generator='bootstrap_crossval', k=f'{k_rdm}x1', scheme=boot_type)
+    wit = lambda **k: dict(grp=grp, k_rdm=k_rdm, boot_type=boot_type, **k)  # noqa: E731
+    tr = Trace()
+    np.random.seed(int(rng.integers(2 ** 31)))
+    with patched(E, 'sets_k_fold', lambda f: tr.wrap('sets_k_fold', f)):
+        ok, _ = ctx.guarded('bootstrap_crossval_folds', sig, bootstrap_crossval, models, rd, method='cosine', N=4,
+                            k_rdm=k_rdm, k_pattern=1, rdm_descriptor='grp', pattern_descriptor='puid',
+                            boot_type=boot_type, data=wit)
+    if not ok:
+        return
+    rets = tr.returns('sets_k_fold')
+    if not rets:
+        ctx.count('bootstrap_crossval_untraceable')
+        return
+    for ev in rets:
+        train_set, test_set, _ = ev['out']
+        for tr_f, te_f in zip(train_set, test_set):
+            ctx.case('bootstrap_crossval_folds', sig)
+            g_tr = set(map(str, tr_f[0].rdm_descriptors['grp']))
+            g_te = set(map(str, te_f[0].rdm_descriptors['grp']))
+            if g_tr & g_te:
+                ctx.fail('bootstrap_crossval_folds', dict(sig, what='rdm_groups_overlap', dimension='rdm'),
+                         f'inside bootstrap_crossval(rdm_descriptor="grp") a fold has subjects {sorted(g_tr & g_te)} both in '
+                         f'the training and in the test set', wit())
+                return
+
+
 def run(ctx):
+    for _ in range(ctx.n(6, 12)):
+        run_bootstrap_crossval_folds(ctx)
     n = ctx.n(120, 1600)
     with RngTap() as tap:
         for it in range(n):
